@@ -25,7 +25,7 @@ def repo_root() -> pathlib.Path:
 
 
 class Module:
-    def __init__(self, name: str, relpath: str, src: str):
+    def __init__(self, name: str, relpath: str, src: str, extern=None):
         self.name = name          # e.g. "fit", "rate.io", "model.core"
         self.relpath = relpath    # e.g. "src/nanite/fit.py"
         self.src = src
@@ -34,7 +34,8 @@ class Module:
             self.tree = self.raw_tree
         else:
             from .normalize import normalize_module
-            self.tree = normalize_module(ast.parse(src, filename=relpath))
+            self.tree = normalize_module(ast.parse(src, filename=relpath),
+                                         extern or {})
         self.funcs: dict[str, ast.AST] = {}
         self.classes: dict[str, ast.ClassDef] = {}
         self.assigns: dict[str, list[ast.AST]] = {}
@@ -129,6 +130,26 @@ class Repo:
             raise AnchorError(f"package directory {self.pkg} not found")
         self.modules: dict[str, Module] = {}
         self.overrides = overrides or {}
+        # first pass: scalar constants of every module, so that names
+        # imported from a sibling module can be resolved as well
+        srcs = {}
+        for path in sorted(self.pkg.rglob("*.py")):
+            rel = path.relative_to(self.root).as_posix()
+            parts = list(path.relative_to(self.pkg).with_suffix("").parts)
+            if parts[-1] == "__init__":
+                parts = parts[:-1]
+            name = ".".join(parts) if parts else "__init__"
+            srcs[name] = (self.overrides[rel] if rel in self.overrides
+                          else path.read_text(encoding="utf-8"))
+        consts = {}
+        if not os.environ.get("NANITE_SA_NO_NORMALIZE"):
+            from .normalize import module_constants
+            for name, src in srcs.items():
+                try:
+                    consts[name] = module_constants(ast.parse(src))[0]
+                except SyntaxError:
+                    consts[name] = {}
+        self._consts = consts
         for path in sorted(self.pkg.rglob("*.py")):
             rel = path.relative_to(self.root).as_posix()
             parts = list(path.relative_to(self.pkg).with_suffix("").parts)
@@ -140,9 +161,38 @@ class Repo:
             else:
                 src = path.read_text(encoding="utf-8")
             try:
-                self.modules[name] = Module(name, rel, src)
+                self.modules[name] = Module(
+                    name, rel, src, self._extern(name, src, path))
+                self.modules[name].repo = self
             except SyntaxError as e:  # pragma: no cover
                 raise AnchorError(f"{rel} does not parse: {e}")
+
+    def _extern(self, name, src, path):
+        """{local name: constant expression} for `from .sibling import X`"""
+        out = {}
+        if not self._consts:
+            return out
+        is_pkg = path.name == "__init__.py"
+        base = name.split(".") if name != "__init__" else []
+        if not is_pkg:
+            base = base[:-1]
+        try:
+            tree = ast.parse(src)
+        except SyntaxError:
+            return out
+        for st in tree.body:
+            if isinstance(st, ast.ImportFrom) and st.level >= 1:
+                up = base[:len(base) - (st.level - 1)] if st.level > 1 \
+                    else base
+                tgt = ".".join(up + (st.module.split(".") if st.module
+                                     else []))
+                tconst = self._consts.get(tgt)
+                if not tconst:
+                    continue
+                for a in st.names:
+                    if a.name in tconst:
+                        out[a.asname or a.name] = tconst[a.name]
+        return out
 
     def with_override(self, relpath: str, src: str) -> "Repo":
         ov = dict(self.overrides)
